@@ -14,6 +14,7 @@ import math
 import common
 from common import enc, dec, close, err_kind
 from props import c13_hist as hist
+from props import c13_tr
 
 ID = "C13"
 RULE = ("dense parameter grids (cut-off/centre in [1e-3, pi-1e-3], bandwidth in [1e-3, 1], delays 1..12, "
@@ -49,11 +50,26 @@ RULE = ("dense parameter grids (cut-off/centre in [1e-3, pi-1e-3], bandwidth in 
         "gammatone.klapuri) called with Stream(*values) / number arguments, the filter objects of the result read by a schedule "
         "(lock-step, or random order with one position running ahead): read number k of position j must be section j of the "
         "constant design of value number k of each argument (Lean machine thubModel on the transcribed strategy bodies = "
-        "constReads, theorem thub_reads_are_constant_designs); call shapes inside histories (all-keyword, StrategyDict called "
+        "constReads, theorem thub_reads_are_constant_designs; the transcribed bodies are re-derived from the source text on every run "
+        "by the translator harness/props/c13_tr.py -> ALV/Gen/C13Src.lean and proved equal, theorems src_*_is_model); call shapes inside histories (all-keyword, StrategyDict called "
         "directly); a case is non-trivial when the "
         "implementation returned a filter (no exception; history: at least one instant read and no unexpected exception); "
         "distinct = distinct JSON case")
 TRUSTED = [
+    "translator harness/props/c13_tr.py (ast, no import of the repo) -> lean/ALV/Gen/C13Src.lean, for the bodies of lowpass / "
+    "highpass .pole .z .pole_exp .z_exp, resonator .poles_exp .freq_poles_exp .z_exp .freq_z_exp, comb .fb .tau .ff, "
+    "gammatone.klapuri.  It trusts (1) the Python subset semantics it assumes: statements in order, operands left to right, "
+    "arguments in order, `name = expr` rebinding, a variable that is not a hub stands for its expression (used twice = read "
+    "twice), the two branches of the `isinstance(x, Iterable)` idiom of lowpass.z / highpass.z mean `el if el else 1` of the "
+    "same expression; (2) the vocabulary mapping: `thub(x, n)` = a new hub (identifier base + number of hubs made before, "
+    "declared copies n from the source, every use of the variable takes the next copy), `cos sin sqrt exp`, `+ - * /`, unary "
+    "minus, `x ** 2` -> Op1.sq, `x ** y` -> Op2.pow, literals 0 1 2 .5 n, `pi`, `e`; `s * z ** -k`, sums and differences of such "
+    "terms and 1 = a dense coefficient list (x*1 = x, 0-x = -x folded as the model does), a Stream scalar times a k-term "
+    "polynomial = a hub of k copies (Poly.__mul__), p / q = filter (num p, den q), `1 +- v * z ** -delay` = onePlusDelayedS "
+    "delay (+-v), CascadeFilter(f(a, b) for f in [refs] * 2) = the calls in order with hub bases 10, 20, ...; anything "
+    "outside this subset is a TranslationError (broken obligation).  Cross-checked: the generated definitions are proved "
+    "EQUAL to the hand transcription (rfl + decide), and the hand transcription is what entry thub runs against /repo; the "
+    "translator is run on edited source texts on every check (extra check translator-selftest)",
     "hand-written generic Lean transcription ALV/Model/C13.lean of the design strategies (modelled, not verified: "
     "ZFilter/Poly operator plumbing that turns the design expression into coefficients, thub/Stream broadcasting)",
     "Float evaluation of the model (Lean runtime, C libm) vs CPython floats: the model copies the code's operation order, so the "
@@ -61,8 +77,9 @@ TRUSTED = [
     "gammatone_erb_constants are compared within 4 ulp of the largest coefficient (measured on this machine: bit-exact, histogram "
     "coef_ulp; the 4 ulp leave room for another libm); gammatone.sampled / slaney sections are divided by a MEASURED gain "
     "(abs(freq_response)) and are compared up to one common factor within 1e-9 + 64 ulp * condition number",
-    "tee hubs (ALV/Model/C13Thub.lean): the strategy bodies are transcribed by hand as programs over iterator objects (one leaf "
-    "per use of a parameter / intermediate Stream: the caller's argument itself, or copy c of hub h); itertools.tee is trusted "
+    "tee hubs (ALV/Model/C13Thub.lean): the 16 thub-based strategy bodies are programs over iterator objects (one leaf "
+    "per use of a parameter / intermediate Stream: the caller's argument itself, or copy c of hub h), transcribed by hand AND "
+    "regenerated from the source on every run (translator below; theorems src_*_is_model); itertools.tee is trusted "
     "(a hub copy at position k yields item k of the hub's source), valid when the hub is the only reader of its source - the "
     "static ownership conditions are the executable check wfDesign, proved for every program (thub_programs_wellformed) and "
     "returned by the driver; Poly / ZFilter's own hubs (a Stream scalar times a k-term polynomial takes k copies) are folded "
@@ -121,7 +138,7 @@ ASSUMPTIONS = [
     "freq_response evaluation (sum|c_k| / |sum c_k z^k|); for gammatone.sampled with eta >= 5 at centre frequencies "
     "within ~1e-2 of 0 or pi rounding dominates and the unit-gain check becomes vacuous (histogram gammatone_gain_tolerance)",
 ]
-MANIFEST = {"text": "Lean 4 theorems (83, no sorry/axiom, no PENDING statement) over R about the generic [TrigField] design "
+MANIFEST = {"text": "Lean 4 theorems (104, no sorry/axiom, no PENDING statement) over R about the generic [TrigField] design "
                     "definitions the driver runs at Float: lowpass/highpass gains, half power, monotonicity, pole radii (8 strategies); "
                     "resonators: unit gain, stability, pole radius exp(-bw/2), for z_exp exactly on |cos f| <= 1/cosh(bw/2) (iff; outside "
                     "it a real pole of larger modulus: recorded finding); combs = their difference equations; gammatone slaney / klapuri / "
@@ -134,10 +151,16 @@ MANIFEST = {"text": "Lean 4 theorems (83, no sorry/axiom, no PENDING statement) 
                     "(lowpass / highpass except z at pi/2, resonators), every gammatone section stable; the calls with "
                     "omitted parameters / default strategies (Option-valued call model), erb closed forms / units / monotonicity / Hz=None "
                     "refusal / elementwise mapping, gammatone_erb_constants closed form and 3 dB identity, the time-domain run the driver "
-                    "evaluates (runFilter over C04.fspec) = the comb recursions pointwise incl. n < delay; tied to /repo by a "
+                    "evaluates (runFilter over C04.fspec) = the comb recursions pointwise incl. n < delay; the 16 thub-based strategy bodies are "
+                    "REGENERATED from the source text on every run (translator harness/props/c13_tr.py -> ALV/Gen/C13Src.lean) and proved "
+                    "equal to the transcribed programs (src_*_is_model, src_progOf_is_model), so the machine theorem, the wellformedness "
+                    "and - instant by instant - the scalar design formulas are theorems about the regenerated bodies "
+                    "(src_reads_are_constant_designs, src_instants_are_the_design_formulas, src_programs_wellformed); tied to /repo by a "
                     "differential correspondence (Float twin in the code's operation order, coefficients within 4 ulp - measured "
                     "bit-exact) run on every check over call shapes, numeric spellings, units and boundary cut-offs",
-            "technique": "Lean 4 proof over R of generic [TrigField] design definitions + Float twin tied to the implementation "
+            "technique": "Lean 4 proof over R of generic [TrigField] design definitions + TRANSLATOR (harness/props/c13_tr.py: the 16 "
+                         "thub-based strategy bodies of lazy_filters.py / lazy_auditory.py -> ALV/Gen/C13Src.lean on every run, proved equal "
+                         "to the model's stream programs) + Float twin tied to the implementation "
                          "+ histories of designs sharing parameter objects (Lean state machine = state-free spec, proved) "
                          "+ long-delay / long-run time-domain runs against the difference equations"}
 
@@ -1281,9 +1304,48 @@ def tally(eng, c, io):
                       "=0" if _fl(c["phase"]) == 0 else "!=0"))
 
 
+def regenerate(eng=None):
+    """translator: lean/ALV/Gen/C13Src.lean from the strategy bodies of the repo under test (harness/props/c13_tr.py)"""
+    return c13_tr.regenerate(eng)
+
+
+def _translator_checks(eng):
+    """the translator on edited copies of the source, and on the source under test against the committed Gen file"""
+    try:
+        texts = c13_tr.read_source()
+        text, _ = c13_tr.translate(texts)
+    except Exception as e:
+        yield ("translator-selftest", False, "the source under test does not translate: %s" % e)
+        return
+    for item in c13_tr.selftest(texts):
+        yield item
+    # the default parameter values the call model (ALV/Model/C13Call.lean: combCall, alpha = 1, tau = inf) copies,
+    # read from the `def` lines by the translator
+    _, infos = c13_tr.translate(texts)
+    got = {i["strategy"]: dict(zip(i["params"], i["defaults"])) for i in infos}
+    want = {"comb.fb": {"delay": None, "alpha": "1"}, "comb.tau": {"delay": None, "tau": "inf"},
+            "comb.ff": {"delay": None, "alpha": "1"}}
+    bad = {k: got.get(k) for k in want if got.get(k) != want[k]}
+    bad.update({k: v for k, v in got.items() if k not in want and any(d is not None for d in v.values())})
+    yield ("translator-defaults", not bad, "default parameter values in the source differ from the call model's: %r" % bad
+           if bad else "comb.fb alpha=1, comb.tau tau=inf, comb.ff alpha=1; no other translated strategy has a default")
+    good = c13_tr.committed_text()
+    if good is None:
+        yield ("translator-reproduces-committed", False, "lean/" + c13_tr.GEN_REL + " is not committed")
+    else:
+        same = c13_tr._defs_only(good) == c13_tr._defs_only(text)
+        yield ("translator-reproduces-committed", same,
+               "byte-identical to the committed file" if good == text else
+               "only comments differ from the committed file" if same else
+               "the source under test translates to other definitions than the committed lean/" + c13_tr.GEN_REL +
+               ": " + ", ".join(c13_tr.changed_defs(good, text)) + " (theorems src_<name>_is_model)")
+
+
 def extra_checks(eng):
     """identity facts about the implementation's strategy tables (not per-case)"""
     import audiolazy as al
+    for item in _translator_checks(eng):
+        yield item
     eng.extra["pending"] = []   # gammatone_sampled_first_unit_gain_all_eta is a theorem now (Eulerian closed form)
     eng.extra["refuted_on_the_model"] = [
         "resonator.z_exp pole radius exp(-bw/2) for ALL parameters: false when cos(f)*(1+R^2) > 2R "
